@@ -66,6 +66,9 @@ pub trait GenObj {
     fn export(&self) -> VerifGeneratorState;
     fn import(&mut self, st: &VerifGeneratorState);
     fn clone_box(&self) -> Obs<Box<dyn GenObj>>;
+    fn as_any_gen(&self) -> &dyn Any;
+    /// `Clone::clone_from`: overwrite this (existing) generator with a copy of `src` (same variant)
+    fn clone_from_obj(&mut self, src: &dyn GenObj) -> Obs<()>;
 }
 
 pub struct Accessors {
@@ -203,6 +206,14 @@ macro_rules! impl_variant {
             }
             fn clone_box(&self) -> Obs<Box<dyn GenObj>> {
                 obs(|| self.0.clone()).map(|g| Box::new($G(g)) as Box<dyn GenObj>)
+            }
+            fn as_any_gen(&self) -> &dyn Any {
+                self
+            }
+            fn clone_from_obj(&mut self, src: &dyn GenObj) -> Obs<()> {
+                let s = src.as_any_gen().downcast_ref::<$G>().expect("same variant");
+                let dst = &mut self.0;
+                obs(move || dst.clone_from(&s.0))
             }
         }
 
